@@ -30,4 +30,27 @@ _Rb_tree_node_base* _Rb_tree_increment(_Rb_tree_node_base* x) noexcept { return 
 const _Rb_tree_node_base* _Rb_tree_increment(const _Rb_tree_node_base* x) noexcept { return verif_rb_inc(const_cast<_Rb_tree_node_base*>(x)); }
 _Rb_tree_node_base* _Rb_tree_decrement(_Rb_tree_node_base* x) noexcept { return verif_rb_dec(x); }
 const _Rb_tree_node_base* _Rb_tree_decrement(const _Rb_tree_node_base* x) noexcept { return verif_rb_dec(const_cast<_Rb_tree_node_base*>(x)); }
+// removal without rebalancing (libstdc++'s unlinking code, minus the recolouring/rotations); the root is kept black
+_Rb_tree_node_base* _Rb_tree_rebalance_for_erase(_Rb_tree_node_base* const z, _Rb_tree_node_base& header) noexcept {
+    _Rb_tree_node_base*& root = header._M_parent; _Rb_tree_node_base*& leftmost = header._M_left; _Rb_tree_node_base*& rightmost = header._M_right;
+    _Rb_tree_node_base* y = z; _Rb_tree_node_base* x = nullptr;
+    if (y->_M_left == nullptr) x = y->_M_right;
+    else if (y->_M_right == nullptr) x = y->_M_left;
+    else { y = y->_M_right; while (y->_M_left != nullptr) y = y->_M_left; x = y->_M_right; }
+    if (y != z) {                                            // z has two children: its successor y takes its place
+        z->_M_left->_M_parent = y; y->_M_left = z->_M_left;
+        if (y != z->_M_right) { if (x) x->_M_parent = y->_M_parent; y->_M_parent->_M_left = x; y->_M_right = z->_M_right; z->_M_right->_M_parent = y; }
+        if (root == z) root = y; else if (z->_M_parent->_M_left == z) z->_M_parent->_M_left = y; else z->_M_parent->_M_right = y;
+        y->_M_parent = z->_M_parent;
+        const _Rb_tree_color c = y->_M_color; y->_M_color = z->_M_color; z->_M_color = c;
+        y = z;
+    } else {
+        if (x) x->_M_parent = y->_M_parent;
+        if (root == z) root = x; else if (z->_M_parent->_M_left == z) z->_M_parent->_M_left = x; else z->_M_parent->_M_right = x;
+        if (leftmost == z) { if (z->_M_right == nullptr) leftmost = z->_M_parent; else { _Rb_tree_node_base* m = x; while (m->_M_left != nullptr) m = m->_M_left; leftmost = m; } }
+        if (rightmost == z) { if (z->_M_left == nullptr) rightmost = z->_M_parent; else { _Rb_tree_node_base* m = x; while (m->_M_right != nullptr) m = m->_M_right; rightmost = m; } }
+    }
+    if (root != nullptr) root->_M_color = _S_black;
+    return y;
+}
 }  // namespace std
